@@ -225,10 +225,21 @@ def check(run):
         er = [c for op, c in q.container_calls(ol, 'm_queue', {'pop_front'})]
         allrm = [c for op, c in q.container_calls(ol, 'm_queue') if op in ('erase', 'pop_back', 'pop_front', 'clear')]
         run.check(len(er) == 1 and len(allrm) == 1, 'R2k', 'pop-front', '%s<%s>' % (ol.norm, tag), ol.loc(), 'on_lookup does not remove exactly the front entry', 'erase(begin())')
-        tk = [v for n in ol.all_nodes() if n['k'] == 'decl' for v in n['vars'] if 'm_queue.front()' in q.render(ol, v.get('init'))]
+        def _whole_front(e):
+            e = q.strip_casts(e)
+            while is_node(e) and ((e['k'] == 'construct' and len(e.get('args') or []) == 1) or (e['k'] == 'call' and (q.callee_name(e) or '').startswith('std::move') and e.get('args'))):
+                e = q.strip_casts(e['args'][0])
+            return q.render(ol, e) in ('m_queue.front()', '*m_queue.begin()', 'm_queue[0]')
+        tk = [v for n in ol.all_nodes() if n['k'] == 'decl' for v in n['vars'] if v.get('init') is not None and _whole_front(v['init'])]
         run.check(len(tk) == 1, 'R2k', 'serve-front', '%s<%s>' % (ol.norm, tag), ol.loc(), 'the entry served is not the front one', 'serves front()')
         inv = [f for f in handlers.flows_in(fx, ol) if f.kind == 'invoke']
-        arms = q.sites(ol, lambda f: [c for c in f.calls() if (q.callee_name(c) or '').endswith('high_resolution_timer::expires_at') and c.get('args') and q.render(f, c['args'][0]) == 'm_queue.front().completion_time'])
+        def _front_time(f, e):
+            e = q.strip_casts(e)
+            if is_node(e) and e['k'] == 'ref' and e.get('dk') == 'local':
+                ds_ = q.local_defs(f, e['did'])
+                return len(ds_) == 1 and _front_time(f, ds_[0][1])
+            return q.render(f, e) == 'm_queue.front().completion_time'
+        arms = q.sites(ol, lambda f: [c for c in f.calls() if (q.callee_name(c) or '').endswith('high_resolution_timer::expires_at') and c.get('args') and _front_time(f, c['args'][0])])
         # in the abstract state "entries remain after the pop" (the sampled flag `empty` is false) every path from the
         # handler invocation to the exit re-arms the timer; branches on the flag are followed along that edge only
         def remain(atom, depth=0):
